@@ -1,7 +1,7 @@
 (* Properties/C03.v — generated response types reject what the schema forbids.
    The layers are proved for all inputs; the composition over a selection tree is evaluated per case
    (RunResp.prop_c03): `partial`. *)
-From GC Require Import Base Rust Json TypeExpr TypeExprProofs Enums Serde SerdeLemmas Conform RespProofs.
+From GC Require Import Base Rust Json TypeExpr TypeExprProofs Schema Query Enums Serde SerdeLemmas Conform RespProofs Compose Exact.
 
 (* the emitted field type accepts EXACTLY the conforming values (so everything else is rejected) *)
 Theorem C03_field_type_exact : forall henv env n leaf F0,
@@ -76,6 +76,40 @@ Proof. exact tagged_unknown. Qed.
 Theorem C03_no_typename : forall D tag variants m, tag_of tag m = None -> deser_tagged D tag variants m = None.
 Proof. exact tagged_without_tag. Qed.
 
+(* COMPOSITION BY CERTIFICATE (same checker as C01, other direction): for any items the checker
+   accepts, a payload that the deserializer accepts satisfies the enforced part of conformance
+   (`wobj`) at every depth; equivalently every payload violating it is rejected.  `wobj` demands:
+   null only at nullable positions (custom scalars excepted: the consumer's type), arrays exactly
+   at list positions, the right JSON kind for Int / Float / String / Boolean / ID / enums, required
+   keys present, an object (or the positional array form of a plain struct) at object positions,
+   and a `__typename` naming a possible type unless the catch-all variant exists. *)
+Theorem C03_checker_exact : forall s frags henv env other,
+  (other = false -> forall n a b c tag vs, find_item n env = Some (ITagEnum a b c tag vs) -> forall v, In v vs -> v_other v = false) ->
+  forall fuel name t sels B, sel_need s henv env fuel name t sels = Some B ->
+    (forall F, deser henv F env (RNamed name) JNull = None) /\
+    (forall F m fw, UK (JObj m) -> is_some (deser henv F env (RNamed name) (JObj m)) = true -> wpos s frags other fw t sels m = true) /\
+    (forall F j, is_some (deser henv F env (RNamed name) j) = true ->
+       match j with JObj _ => True | JArr _ => find_kind_sdl s t = Some KObject | _ => False end).
+Proof. exact sel_exact. Qed.
+
+Theorem C03_certified_rejects_partial : forall s henv env doc op other B,
+  certify s henv env doc op = Some B ->
+  (other = false -> env_no_other env = true) ->
+  forall F data fw, UK data -> enforced s doc op other fw data = false ->
+  deser henv F env (RNamed "ResponseData") data = None.
+Proof. exact certified_rejects. Qed.
+
+(* the single-point corruptions violate the enforced part, whatever the leaf *)
+Theorem C03_enforced_null_at_nonnull : forall leaf t, wtype leaf false true (GNonNull t) JNull = false.
+Proof. exact wtype_null_nonnull. Qed.
+Theorem C03_enforced_non_list : forall leaf c b t j,
+  is_null j = false -> (forall l, j <> JArr l) -> wtype leaf c b (GList t) j = false.
+Proof. exact wtype_non_list. Qed.
+
+Print Assumptions C03_checker_exact.
+Print Assumptions C03_certified_rejects_partial.
+Print Assumptions C03_enforced_null_at_nonnull.
+Print Assumptions C03_enforced_non_list.
 Print Assumptions C03_field_type_exact.
 Print Assumptions C03_null_at_nonnull.
 Print Assumptions C03_non_list_at_list.
